@@ -15,6 +15,7 @@ Definition run (x : sx) : sx :=
   else if str_eqb fam (bytes "unit") then run_unit x
   else if str_eqb fam (bytes "cache") then run_cache x
   else if str_eqb fam (bytes "lim") then run_lim x
+  else if str_eqb fam (bytes "limrt") then run_limrt x
   else L [A (bytes "unknown-family")].
 
 Definition proj (x o : sx) : sx :=
@@ -22,6 +23,7 @@ Definition proj (x o : sx) : sx :=
   if str_eqb fam s_route then proj_route o
   else if str_eqb fam (bytes "copy") then proj_copy o
   else if str_eqb fam (bytes "cache") then proj_cache o
+  else if str_eqb fam (bytes "limrt") then proj_limrt o
   else o.
 
 Definition spec (prop : str) (x o : sx) : sx :=
@@ -37,7 +39,7 @@ Definition spec (prop : str) (x o : sx) : sx :=
      else v_ok)
   else if str_eqb fam (bytes "copy") then
     (if str_eqb prop (bytes "C20") then mon_C20 x o else v_ok)
-  else if str_eqb fam (bytes "lim") then
+  else if str_eqb fam (bytes "lim") || str_eqb fam (bytes "limrt") then
     (if str_eqb prop (bytes "C16") then mon_C16 x o else if str_eqb prop (bytes "C17") then mon_C17 x o else v_ok)
   else if str_eqb fam (bytes "route") then
     (if str_eqb prop (bytes "C01") then mon_C01 x o
